@@ -231,17 +231,22 @@ impl Driver {
         PutOptions::builder().uri(uri).timestamp(ts).instant_index(self.cfg.instant_index).extraction_budget_ms(0).build()
     }
 
-    /// put of a new document; kind: t T b B G e E n z
+    /// put of a new document; kind: t d T b B G e E n z
     pub fn put(&mut self, kind: &str) {
         let n = self.model.next_doc;
-        let uri = format!("mv2://d{n}");
+        let mut uri = format!("mv2://d{n}");
         let ts = 1000 + n as i64;
         let mut opts = self.opts(&uri, ts);
+        if kind == "d" {
+            // no explicit uri: the frame receives the default uri that encodes its id
+            opts.uri = None;
+            uri = format!("mv2://frames/{}", self.model.frames.len());
+        }
         let mut embedding: Option<Vec<f32>> = None;
         let mut chunk_embeddings: Option<Vec<Vec<f32>>> = None;
         let mut word = None;
         let payload: Vec<u8> = match kind {
-            "t" => {
+            "t" | "d" => {
                 word = Some(word_for(n));
                 short_text(n, 0).into_bytes()
             }
